@@ -34,6 +34,8 @@ type scramAuth struct {
 	isPlus                                      bool
 	tlsConnState                                *tls.ConnectionState
 	bindData                                    []byte
+	// serverVerified is true once the server signature of the running exchange has been validated
+	serverVerified bool
 }
 
 // ScramSHA1Auth creates and returns a new SCRAM-SHA-1 authentication mechanism with the given
@@ -118,6 +120,13 @@ func (a *scramAuth) Next(fromServer []byte, more bool) ([]byte, error) {
 			return nil, fmt.Errorf("%w: %s", ErrUnexpectedServerResponse, string(fromServer))
 		}
 	}
+	// RFC 5802 section 3: once the exchange is running (the client-first-message has been sent) a
+	// success reply of the server is only acceptable after the ServerSignature of this exchange
+	// has been verified.
+	if len(a.nonce) > 0 && !a.serverVerified {
+		a.reset()
+		return nil, ErrScramServerNotVerified
+	}
 	return nil, nil
 }
 
@@ -128,6 +137,7 @@ func (a *scramAuth) reset() {
 	a.saltedPwd = nil
 	a.authMessage = nil
 	a.iterations = 0
+	a.serverVerified = false
 }
 
 // initialClientMessage generates the initial message for SCRAM authentication, including a nonce and
@@ -178,6 +188,7 @@ func (a *scramAuth) initialClientMessage() ([]byte, error) {
 
 // handleServerFirstResponse processes the first response from the server in SCRAM authentication.
 func (a *scramAuth) handleServerFirstResponse(fromServer []byte) ([]byte, error) {
+	a.serverVerified = false
 	parts := bytes.Split(fromServer, []byte(","))
 	if len(parts) < 3 {
 		return nil, errors.New("not enough fields in the first server response")
@@ -245,6 +256,7 @@ func (a *scramAuth) handleServerValidationMessage(fromServer []byte) ([]byte, er
 	if !hmac.Equal(serverSignature, computedServerSignature) {
 		return nil, errors.New("invalid server signature")
 	}
+	a.serverVerified = true
 	return []byte(""), nil
 }
 
